@@ -9,7 +9,7 @@ import sys
 from .. import tlc, ser, readers as RD
 from ..readers import bexp as BX
 from ..artefact import run_jobs
-from ..common import Scratch, Timer, tier, seed, use_repo, vlog
+from ..common import is_ret,  Scratch, Timer, tier, seed, use_repo, vlog
 from ..report import Report
 
 FUNS = {
@@ -29,8 +29,14 @@ FUNS = {
     12: ("chain", "def chain(a: bool, b: bool, c: bool) -> bool:\n    d = a and b\n    e = d or c\n    f = e ^ a\n    return f and not d"),
     13: ("sum3", "def sum3(a: Qint[2], b: Qint[2], c: Qint[2]) -> Qint[2]:\n    return a + b + c"),
     14: ("chain2", "def chain2(a: Qint[2], b: Qint[2]) -> bool:\n    d = a + b\n    e = d + a\n    return e > d"),
+    # names that look like return bits; return values with constant bits (the conjunction is constant or loses a bit)
+    15: ("retry", "def retry(_retry: bool, b: bool, c: bool) -> bool:\n    _retx = _retry and b\n    return _retx or c"),
+    16: ("halve", "def halve(a: Qint[2]) -> Qint[2]:\n    return a >> 1"),
+    17: ("flags", "def flags(a: bool, b: bool) -> Tuple[bool, bool]:\n    return (a or b, False)"),
+    18: ("flagt", "def flagt(a: bool, b: bool) -> Tuple[bool, bool]:\n    return (True, a ^ b)"),
+    19: ("retry2", "def retry2(a: bool, b: bool, c: bool) -> bool:\n    _ret_old = a and b\n    _retz = _ret_old ^ c\n    return _retz or a"),
 }
-DECOR = {12: "@qlassfa(bool_optimizer=fastOptimizer)", 14: "@qlassfa(bool_optimizer=fastOptimizer)"}
+DECOR = {19: "@qlassfa(bool_optimizer=fastOptimizer)", 12: "@qlassfa(bool_optimizer=fastOptimizer)", 14: "@qlassfa(bool_optimizer=fastOptimizer)"}
 HEADER = "from qlasskit import qlassf, qlassfa, Qint\nfrom qlasskit.boolopt import fastOptimizer\nfrom typing import Tuple\n\n"
 
 
@@ -74,7 +80,7 @@ def job(j):
         c["inputs"] = [b for a in ref.args for b in a.bitvec]
         c["rets"] = list(ref.returns.bitvec)
         c["exprs"] = ser.ser_exprs(ref.expressions)
-        c["has_intermediates"] = any(not n.startswith("_ret") for n, _ in c["exprs"])
+        c["has_intermediates"] = any(not is_ret(n) for n, _ in c["exprs"])
         if inv["tool"] == "py2bexp":
             if inv["form"]:
                 argv += ["-f", inv["form"]]
